@@ -955,3 +955,45 @@ def dedup_run(workload: str, noack: list[Any], inject_at: Any, what: str, trust:
 
     return schedule_run("C09", workload, choices or [], noack=noack, inject_at=inject_at if inj else None, inject=inj,
                         monitors=("C02",), compare=mode, post=post_handled_once, setup=setup, lock_seconds=lock_seconds)
+
+
+# ----------------------------------------------------------------------------------------------- C11 groups
+def inject_claims_sweep(w: World) -> None:
+    w.store.cleanup_completed_stage_claims()
+
+
+def make_post_group(kind: str, members: tuple[str, ...]) -> Callable[[World, dict[str, Any], Any], tuple[str, Any] | None]:
+    """mutex: never two members RUNNING after any durable status change, every member runs once;
+    choice: exactly one member ever leaves NOT_STARTED for RUNNING, the others end CANCELED."""
+
+    def post(w: World, snap: dict[str, Any], info: dict[str, Any]) -> tuple[str, Any] | None:
+        ids = {w.refs[m]: m for m in members}
+        cur = {m: "NOT_STARTED" for m in members}
+        started: Counter = Counter()
+        for row in w.audit():
+            if row["tbl"] != "stage" or row["id"] not in ids:
+                continue
+            m = ids[row["id"]]
+            cur[m] = row["new"]
+            if row["old"] == "NOT_STARTED" and row["new"] == "RUNNING":
+                started[m] += 1
+            running = [x for x, s in cur.items() if s == "RUNNING"]
+            if kind == "mutex" and len(running) > 1:
+                return ("mutex/two_holders_running", {"running": running, "at_audit_seq": row["seq"]})
+        final = {m: snap["stages"][m]["status"] for m in members}
+        if kind == "mutex":
+            for m in members:
+                if started[m] != 1 or final[m] != "SUCCEEDED":
+                    return ("mutex/waiting_stage_did_not_run/%s=%s" % (m, final[m]), {"final": final, "started": dict(started)})
+        else:
+            winners = [m for m in members if started[m] >= 1]
+            if len(winners) != 1:
+                return ("choice/winners=%d" % len(winners), {"started": dict(started), "final": final})
+            for m in members:
+                if m not in winners and final[m] != "CANCELED":
+                    return ("choice/loser_not_canceled/%s=%s" % (m, final[m]), {"final": final})
+            if final[winners[0]] != "SUCCEEDED":
+                return ("choice/winner_did_not_finish", {"final": final})
+        return None
+
+    return post
